@@ -16,7 +16,7 @@ import (
 	The judgement is made by TLC (T_Layout.tla), not here.
 */
 
-var verifGlyphs = []rune("abcdefgXYZ019.,;:!?()[]é世界ж🙂ʼ-_\u0301\u200d\u0308")
+var verifGlyphs = []rune("abcdefgXYZ019.,;:!?()[]é世界ж🙂ʼ-_\u0301\u200d\u0308\ufffd\ufffd")
 var verifSpaces = []rune{' ', ' ', ' ', ' ', '\t', ' ', ' ', ' ', ' ', ' ', ' ', ' ', ' ', '　', '\u0085', '\r', '\v', '\f'}
 var verifStyles = []string{"1", "3", "4", "9", "38;2;164;245;155", "48;2;75;75;75", "38;2;0;0;0"}
 
